@@ -138,8 +138,10 @@ class Distribution(DistributionModel):
             offset = 1 if len(self.batch_shape) == 0 else len(self.batch_shape)
             return x_shape[:-offset]
         else:
-            # the distribution is a likelihood term
-            return self.batch_shape[: -len(x_shape)]
+            # the distribution is a likelihood term: drop the dimensions of the
+            # data, not those of an event (e.g. Dirichlet), from the batch shape
+            data_dims = len(x_shape) - len(self.event_shape)
+            return self.batch_shape[: len(self.batch_shape) - data_dims]
 
     @property
     def distribution(self) -> torch.distributions.Distribution:
